@@ -1706,8 +1706,14 @@ def translate(text: str, event_text: str, keep_going: bool = False):
                                  "construct": exc.what, "error": str(exc)})
     for cname, mname, _kind in METHODS:
         attempt(lambda: tr.method(cname, mname), cname, mname, f"gen_{cname}_{mname}")
-    attempt(lambda: tr.ensure_block("mid", tr.tree), None, "(model-program interpreter)", "gen_exec_actions")
-    attempt(lambda: tr.ensure_block("post", tr.tree), None, "(command dispatch)", "gen_do_cmd")
+    import re
+    for which, text, label in (("mid", MIDLUDE, "(model-program interpreter)"), ("post", POSTLUDE, "(command dispatch)")):
+        n0 = len(failures)
+        attempt(lambda: tr.ensure_block(which, tr.tree), None, label, "@" + which)
+        if len(failures) > n0:      # every name the block would have defined is missing
+            f0 = failures.pop()
+            for nm in re.findall(r"^(?:Definition|Fixpoint)\s+([A-Za-z0-9_']+)", text, re.M):
+                failures.append(dict(f0, definition=nm))
     return tr, failures
 
 
@@ -1783,7 +1789,9 @@ def main(argv):
             "generated_sha1": hashlib.sha1(gen.encode()).hexdigest(), "methods": tr.translated, "failures": failures,
             "fixed_blocks": [n[1:] for n, _ in tr.defs if n.startswith("@")],
             "hand_transcribed_only": HAND_ONLY + [f"{f['class']}.{f['method']} (could not be translated: {f['construct']}, line {f['line']})"
-                                                  for f in failures if f.get("class")]}
+                                                  for f in failures if f.get("class")]
+                                                 + sorted({f"{f['method']} (fixed block left out: it rests on a method that could not be translated)"
+                                                           for f in failures if not f.get("class") and f.get("method")})}
     if out_dir is not None:
         (out_dir / "Gen_Sim.json").write_text(json.dumps(info, indent=1) + "\n")
     for f in failures:
